@@ -200,6 +200,16 @@ func runC02(c *core.Ctx) {
 								r.try(v, hv, hv+1, v.Name, depth)
 							}
 							c.Obs("hostile_calls", int64(len(hs)*12))
+							// every pair of hostile integers (differences and
+							// products that wrap), on the full-length shapes
+							if l == k && extra == 0 && (k == maxK || k == 1) {
+								for _, h1 := range hs {
+									for _, h2 := range hs {
+										r.try(v, h1, h2, v.Name, depth)
+									}
+								}
+								c.Obs("hostile_pair_calls", int64(len(hs)*len(hs)))
+							}
 						}
 					}
 				}
